@@ -546,6 +546,9 @@ func (x *c11Ctx) leaf() *c11Expr {
 		s := make([]byte, r.Intn(12))
 		for i := range s {
 			s[i] = byte(r.Range(0x20, 0x7e))
+			if r.Chance(1, 8) {
+				s[i] = byte(r.PickInt([]int{0x01, 0x7f, 0x09, 0x1f}))
+			}
 		}
 		return &c11Expr{kind: c11EString, str: s}
 	case 6, 7:
@@ -838,6 +841,9 @@ func (g *c11Gen) fillTable(t int) {
 				s := make([]byte, g.r.Intn(20))
 				for i := range s {
 					s[i] = byte(g.r.Range(0x20, 0x7e))
+					if g.r.Chance(1, 8) {
+						s[i] = byte(g.r.PickInt([]int{0x01, 0x7f, 0x09, 0x1f}))
+					}
 				}
 				o.data = &c11Expr{kind: c11EString, str: s}
 			default:
